@@ -161,6 +161,16 @@ def tKind : Option RT → Outcome K
   | none => .panic "nil pointer dereference (method call on a nil reflect.Type)"
   | some t => .ok t.kind
 
+/-- `t.Kind()`, `t.Implements(u)`, `reflect.PtrTo(t)`, `reflect.New(t)`: the calls on a `reflect.Type`
+that panic exactly for the nil Type -/
+def typeCall (t : Option RT) : Outcome Unit := (tKind t).bind fun _ => .ok ()
+
+/-- the type calls of a decode hook `func(f, t reflect.Type, data any)`: mapstructure passes
+`from.Type()` and `to.Type()` of valid Values, which are never nil -/
+def hookTypeCalls (f t : Option RT) : Outcome Unit :=
+  (typeCall t).bind fun _ => (typeCall f).bind fun _ => (typeCall f).bind fun _ => (typeCall t).bind fun _ =>
+    (typeCall t).bind fun _ => typeCall t
+
 /-- `t.Elem()`: "It panics if the type's Kind is not Array, Chan, Map, Pointer, or Slice" -/
 def tElem : RT → Outcome RT
   | .ptr e => .ok e
